@@ -11,11 +11,19 @@ Require Import AvraV.Model.Fs AvraV.Model.Parse AvraV.Model.Passes.
 Require Import AvraV.Proofs.LayoutProofs AvraV.Proofs.CondProofs AvraV.Proofs.Pass0Proofs.
 Open Scope N_scope.
 
-(** lines that leave the list of segments alone *)
+(** lines that leave the list of segments alone (and have a length a line of an expansion may have) *)
 Definition neutral_dir (d : directive) : bool :=
   match d with DOrg | DCSeg | DDSeg | DESeg | DInclude => false | _ => true end.
 Definition neutral_line (ln : line) : bool :=
-  match dir_of (snd ln) with Some d => neutral_dir d | None => true end.
+  match dir_of (snd ln) with Some d => neutral_dir d | None => true end && (N.of_nat (length (snd ln)) <=? max_macro_line).
+
+Lemma neutral_not_too_long ls : Forall (fun ln => neutral_line ln = true) ls -> too_long ls = false.
+Proof.
+  induction 1 as [|ln r Hn _ IH]; [reflexivity|].
+  apply andb_true_iff in Hn. destruct Hn as [_ Hn]. apply N.leb_le in Hn.
+  change (too_long (ln :: r)) with ((max_macro_line <? N.of_nat (length (snd ln))) || too_long r).
+  rewrite IH, (proj2 (N.ltb_ge _ _) Hn). reflexivity.
+Qed.
 
 Lemma skip_cond_forall (P : line -> Prop) all : forall ls d, Forall P ls -> Forall P (fst (skip_cond all d ls)).
 Proof.
@@ -75,7 +83,7 @@ Qed.
 Lemma line_step_one_seg a ln sk st st' ni : neutral_line ln = true ->
   line_step fuel inc ln sk st = Ok (st', ni) -> one_seg a st -> one_seg a st'.
 Proof.
-  unfold neutral_line, dir_of, line_step. intros Hn H Hs.
+  unfold neutral_line. intros Hn H Hs. apply andb_true_iff in Hn. destruct Hn as [Hn _]. revert Hn H. unfold dir_of, line_step. intros Hn H.
   destruct (parse_line (snd ln)) as [[| name | lab o args | lab d ops]|]; try discriminate.
   - injection H as <- _. exact Hs.
   - injection H as <- _. apply one_seg_push. exact Hs.
@@ -121,7 +129,7 @@ Lemma expand_neutral line name ops st body :
     do x <- body_items ops body st;
     Ok (fst x, [{| items := snd x; seg_t := SCode; address := address (last_seg st) |}]).
 Proof.
-  intros Hl Hf. unfold macro_expand, body_items. rewrite Hl. cbv zeta.
+  intros Hl Hf. unfold macro_expand, body_items. rewrite Hl. cbv zeta. rewrite (neutral_not_too_long _ Hf).
   destruct (parse_iter _ _ _ _ _ _) as [r| | |] eqn:Ep; try reflexivity. cbn [bind fst snd].
   assert (Hs : one_seg (address (last_seg st)) r).
   { eapply parse_iter_one_seg; [exact Hf | exact Ep |]. exists []. reflexivity. }
